@@ -465,6 +465,12 @@ fn parse_command(
 	}
 
 
+	// Nothing is going to be written when only the usage
+	// text or the version was asked for
+	let only_shows_info =
+		command.show_help ||
+		command.show_version;
+
 	// Set the default format for each group,
 	// if none were specified
 	for group in &mut command.output_groups
@@ -482,6 +488,11 @@ fn parse_command(
 			{
 				group.format = Some(OutputFormat::Binary);
 			}
+		}
+
+		if only_shows_info
+		{
+			continue;
 		}
 
 		if !group.printout &&
@@ -515,6 +526,11 @@ fn parse_command(
 	// the second would replace the output of the first
 	for (index, group) in command.output_groups.iter().enumerate()
 	{
+		if only_shows_info
+		{
+			break;
+		}
+
 		if let (false, Some(output_filename)) = (group.printout, &group.output_filename)
 		{
 			let used_before = command.output_groups[..index]
